@@ -23,6 +23,10 @@ fn main() {
         Ok(()) => { println!("REPLAY harness={name} outcome=holds"); }
         Err(e) => {
             let msg = e.downcast_ref::<String>().cloned().or_else(|| e.downcast_ref::<&str>().map(|s| s.to_string())).unwrap_or_default();
+            if msg.contains("the call returned although it must panic") {
+                println!("REPLAY harness={name} outcome=VIOLATED message={msg:?}");
+                std::process::exit(1);
+            }
             if msg.contains("REPLAY-ASSUMPTION-VIOLATED") || msg.starts_with("REPLAY:") {
                 println!("REPLAY harness={name} outcome=invalid-input ({msg})");
                 std::process::exit(3);
